@@ -462,10 +462,10 @@ def small_configs(quick):
     out.append((mk_case(1, 0, "1", ["p10", "x"]), b_small))
     # two subscribers, two messages: bound 1 in the quick tier, bound 2 in the thorough one
     b22 = 1 if quick else 2
-    out.append((mk_case(1, 0, "11", prog(2)), b22))
     out.append((mk_case(1, 1, "10", prog(2)), b22))
     out.append((mk_case(2, 1, "10", prog(2)), b22))
     if not quick:
+        out.append((mk_case(1, 0, "11", prog(2)), b22))
         out.append((mk_case(2, 0, "11", prog(2)), b22))
         out.append((mk_case(1, 1, "11", prog(2)), b22))
         out.append((mk_case(1, 1, "01", prog(2)), b22))
@@ -474,11 +474,15 @@ def small_configs(quick):
     return out
 
 
-def explore(base, bound, limit):
-    """all schedules of `base` with at most `bound` preemptions (each a fresh run of the real code)"""
+def explore(base, bound, limit, deadline=None):
+    """all schedules of `base` with at most `bound` preemptions (each a fresh run of the real code); stops early
+    (reported as truncated = not exhaustive) at `limit` schedules or at the `deadline`"""
     ex = S.Explorer(bound=bound, limit=limit)
     cases = []
     while ex.more():
+        if deadline is not None and time.time() > deadline and len(cases) >= 200:
+            ex.truncated = True
+            break
         c = dict(base)
         line, info = run_real(c, ex.strategy())
         ex.finish()
@@ -586,17 +590,19 @@ def run(ctx):
     quick = not ctx.thorough
     ctx.note(f"stale-waiter rule of Mailbox._can_fetch read off the source: {gate_rule()} (L = compares with the lowest number, H = _has_msg)")
     # 1. systematic: every schedule with <= bound preemptions for the smallest configurations
-    limit = ctx.pick(4000, 40000)
+    limit = ctx.pick(4000, 20000)
     sys_cases, trunc = [], []
     t0 = time.time()
+    deadline = t0 + ctx.pick(240, 600)      # a busy machine truncates the largest configurations instead of running for ever
     with pinned():
         for base, bound in small_configs(quick):
-            cs, t = explore(base, bound, limit)
+            cs, t = explore(base, bound, limit, deadline)
             sys_cases += cs
             if t:
                 trunc.append(op_line(base))
     if trunc:
-        ctx.note(f"systematic exploration stopped at the per-configuration limit of {limit} schedules for {len(trunc)} configurations")
+        ctx.note(f"systematic exploration truncated (limit {limit} schedules per configuration / time budget) for {len(trunc)} configurations: "
+                 + "; ".join(trunc[:6]))
     ctx.note(f"systematic: {len(sys_cases)} schedules of {len(small_configs(quick))} configurations "
              f"(preemption bounds {sorted({b for _, b in small_configs(quick)})}), {time.time() - t0:.0f}s")
     _correspond(ctx, "mailbox/systematic", sys_cases, exhaustive=not trunc)
@@ -620,9 +626,9 @@ def run(ctx):
                 c["_out"] = execute(c)
                 cases.append(c)
         return cases
-    _correspond(ctx, "mailbox/random", batch("clean", *ctx.pick((1500, 5000, 30), (20000, 36000, 400))))
-    _correspond(ctx, "mailbox/kill", batch("kill", *ctx.pick((500, 1500, 10), (6000, 10000, 120))))
-    _correspond(ctx, "mailbox/malformed", batch("malformed", *ctx.pick((300, 600, 5), (2000, 4000, 50))))
+    _correspond(ctx, "mailbox/random", batch("clean", *ctx.pick((1000, 5000, 30), (20000, 36000, 400))))
+    _correspond(ctx, "mailbox/kill", batch("kill", *ctx.pick((300, 1500, 10), (6000, 10000, 120))))
+    _correspond(ctx, "mailbox/malformed", batch("malformed", *ctx.pick((200, 600, 5), (2000, 4000, 50))))
 
     # 3. divide_outputs feeding several mailboxes (oracle only; the network model is C06's)
     if ctx.thorough:
